@@ -344,6 +344,103 @@ def _resolve_selectors(tree):
             "  filter (selector_selected tsel esel addr test) methods.\n")
 
 
+def _assignments(fn, name):
+    """all statements of fn that (re)bind `name` (assignment, walrus, augmented, loop / with targets)"""
+    out = []
+    for n in ast.walk(fn):
+        tgts = []
+        if isinstance(n, ast.Assign):
+            tgts = n.targets
+        elif isinstance(n, (ast.AugAssign, ast.AnnAssign, ast.NamedExpr)):
+            tgts = [n.target]
+        elif isinstance(n, (ast.For, ast.comprehension)):
+            tgts = [n.target]
+        elif isinstance(n, ast.withitem) and n.optional_vars is not None:
+            tgts = [n.optional_vars]
+        def bound(t):
+            if isinstance(t, ast.Name):
+                return [t.id]
+            if isinstance(t, (ast.Tuple, ast.List)):
+                return [x for e in t.elts for x in bound(e)]
+            if isinstance(t, ast.Starred):
+                return bound(t.value)
+            return []  # attribute / subscript stores do not rebind a name
+
+        for t in tgts:
+            if name in bound(t):
+                out.append(n)
+    return out
+
+
+def _call_sites(tree):
+    """How the resolved targets are USED: the functions run on an account must be resolved for that
+    account's address, in the call that runs them (target / exclude selectors are per address, several
+    accounts may be instances of one contract):
+        _compute_frontier:   for addr in resolve_target_contracts(ctx.inv_ctx, pre_ex): ... run_target_contract(ctx, pre_ex, addr)
+        run_target_contract: for fun_sig, fun_selector in <resolve_target_selectors(<inv ctx>, addr, contract_json)>: ...
+                             run_target_function(args, ex, addr, ...)
+    with addr / ex / contract_json bound exactly once (parameter resp. the artifact of ex.code[addr])."""
+    rtc = find_function(tree, "run_target_contract")
+    if [a.arg for a in rtc.args.args] != ["ctx", "ex", "addr"]:
+        raise TranslateError("run_target_contract: expected parameters (ctx, ex, addr)")
+    for p in ("ctx", "ex", "addr"):
+        if _assignments(rtc, p):
+            raise TranslateError(f"run_target_contract: parameter {p} is rebound")
+    calls = [n for n in ast.walk(rtc) if isinstance(n, ast.Call) and isinstance(n.func, ast.Name) and n.func.id == "resolve_target_selectors"]
+    names = [n for n in ast.walk(rtc) if isinstance(n, ast.Name) and n.id == "resolve_target_selectors"]
+    if len(calls) != 1 or len(names) != 1:
+        raise TranslateError("run_target_contract: resolve_target_selectors must be called exactly once")
+    call = calls[0]
+    if ast.unparse(call) not in ("resolve_target_selectors(ctx.inv_ctx, addr, contract_json)", "resolve_target_selectors(inv_ctx, addr, contract_json)"):
+        _fail(call, "arguments of resolve_target_selectors")
+    if "inv_ctx" in ast.unparse(call.args[0]) and not ast.unparse(call.args[0]).startswith("ctx."):
+        b = _assignments(rtc, "inv_ctx")
+        if len(b) != 1 or ast.unparse(b[0]) != "inv_ctx = ctx.inv_ctx":
+            raise TranslateError("run_target_contract: inv_ctx is not ctx.inv_ctx")
+    # contract_json: the artifact of the contract at addr
+    want = {"contract_json": "contract_json = BuildOut().get_by_name(contract_name, filename)", "contract_name": "contract_name = code.contract_name",
+            "filename": "filename = code.filename", "code": "code = ex.code[addr]"}
+    for nm, src in want.items():
+        b = _assignments(rtc, nm)
+        if len(b) != 1 or ast.unparse(b[0]) != src:
+            raise TranslateError(f"run_target_contract: `{src}` expected as the only binding of {nm}, found {[ast.unparse(x) for x in b]}")
+    # the loop over the resolved functions iterates the result of THIS call
+    loops = [n for n in ast.walk(rtc) if isinstance(n, ast.For) and ast.unparse(n.target) == "(fun_sig, fun_selector)"]
+    if len(loops) != 1:
+        raise TranslateError("run_target_contract: the loop `for fun_sig, fun_selector in ...` not found")
+    it = loops[0].iter
+    if it is not call:
+        if not isinstance(it, ast.Name):
+            _fail(it, "iterable of the loop over the target functions")
+        b = _assignments(rtc, it.id)
+        if len(b) != 1 or not isinstance(b[0], ast.Assign) or b[0].value is not call:
+            raise TranslateError(f"run_target_contract: {it.id} is not (only) the result of resolve_target_selectors(..., addr, ...) of this call: "
+                                 f"{[ast.unparse(x)[:120] for x in b]}")
+    rtf = [n for n in ast.walk(loops[0]) if isinstance(n, ast.Call) and isinstance(n.func, ast.Name) and n.func.id == "run_target_function"]
+    if len(rtf) != 1 or [ast.unparse(a) for a in rtf[0].args[:5]] != ["args", "ex", "addr", "abi", "fun_info"]:
+        raise TranslateError("run_target_contract: run_target_function(args, ex, addr, abi, fun_info, ...) expected inside the loop")
+    b = _assignments(rtc, "fun_info")
+    if len(b) != 1 or ast.unparse(b[0]) != "fun_info = FunctionInfo(contract_name, fun_name, fun_sig, fun_selector)":
+        raise TranslateError("run_target_contract: fun_info is not FunctionInfo(contract_name, fun_name, fun_sig, fun_selector)")
+    # _compute_frontier
+    cf = find_function(tree, "_compute_frontier")
+    loops = [n for n in ast.walk(cf) if isinstance(n, ast.For) and ast.unparse(n.iter) == "resolve_target_contracts(ctx.inv_ctx, pre_ex)"]
+    if len(loops) != 1 or ast.unparse(loops[0].target) != "addr":
+        raise TranslateError("_compute_frontier: `for addr in resolve_target_contracts(ctx.inv_ctx, pre_ex)` not found")
+    runs = [n for n in ast.walk(cf) if isinstance(n, ast.Call) and isinstance(n.func, ast.Name) and n.func.id == "run_target_contract"]
+    if len(runs) != 1 or ast.unparse(runs[0]) != "run_target_contract(ctx, pre_ex, addr)" or not any(runs[0] is n for n in ast.walk(loops[0])):
+        raise TranslateError("_compute_frontier: run_target_contract(ctx, pre_ex, addr) expected inside the loop over the target contracts")
+    if len(_assignments(cf, "addr")) != 1 or len(_assignments(cf, "pre_ex")) != 1:
+        raise TranslateError("_compute_frontier: addr / pre_ex are rebound")
+    return (
+        "(* run_target_contract(ctx, ex, addr): the functions run on the account at addr are those resolved for addr, in this call *)\n"
+        "Definition run_target_functions (tsel esel : list (Z * list Z)) (test : Z) (methods_of : Z -> list method) (addr : Z) : list method :=\n"
+        "  resolve_target_selectors tsel esel addr test (methods_of addr).\n\n"
+        "(* _compute_frontier: for addr in resolve_target_contracts(ctx.inv_ctx, pre_ex): run_target_contract(ctx, pre_ex, addr) *)\n"
+        "Definition frontier_targets (tc ec : list Z) (tsel esel : list (Z * list Z)) (deployed : list Z) (test : Z) (methods_of : Z -> list method) : list (Z * method) :=\n"
+        "  flat_map (fun addr => map (pair addr) (run_target_functions tsel esel test methods_of addr)) (resolve_target_contracts tc ec tsel deployed test).\n")
+
+
 def translate(src_text):
     tree = ast.parse(src_text)
     getters = _getters(tree)
@@ -355,6 +452,7 @@ def translate(src_text):
     lines.append(_resolve_contracts(tree))
     lines.append(_sender(tree))
     lines.append(_resolve_selectors(tree))
+    lines.append(_call_sites(tree))
     return "\n".join(lines), {"getters": getters}
 
 
